@@ -576,7 +576,67 @@ def _witness_defaultdict(ctx):
             ctx.violation("argument-mutated:load:defaultdict", f"loading a model from a defaultdict that lacks a required key inserted it: {dict(d)!r} [{dt.name}]", {})
 
 
-DIRECTED = {"defaultdict-missing-required-key": _witness_defaultdict}
+def _mutable_defaults_of_model_kinds(ctx):
+    """Two loads that leave a defaulted field absent share no mutable container with each other - nor with the model's own declaration -
+    whenever the model itself would give every instance its own: pydantic copies a mutable default per instance (defect #99: the loader
+    passed the declared object explicitly); dataclass / attrs factories are called per object. Editing one result leaves the next load and
+    the model's own construction as they were."""
+    import sys  # noqa: PLC0415
+
+    from adaptix import Retort  # noqa: PLC0415
+    mod = types.ModuleType("vlib_c20_defaults")
+    sys.modules[mod.__name__] = mod
+    source = """
+from decimal import Decimal
+from typing import Any, Dict, List
+from dataclasses import dataclass, field
+import attrs
+from pydantic import BaseModel
+class PM(BaseModel):
+    a: int
+    x: Any = [Decimal(1)]
+    z: Dict[str, Any] = {'k': [1]}
+    y: List[int] = []
+@dataclass
+class DM:
+    a: int
+    x: Any = field(default_factory=lambda: [Decimal(1)])
+    z: Dict[str, Any] = field(default_factory=lambda: {'k': [1]})
+    y: List[int] = field(default_factory=list)
+@attrs.define
+class AM:
+    a: int
+    x: Any = attrs.Factory(lambda: [Decimal(1)])
+    z: Dict[str, Any] = attrs.Factory(lambda: {'k': [1]})
+    y: List[int] = attrs.Factory(list)
+"""
+    try:
+        exec(compile(source, "<vlib_c20_defaults>", "exec", dont_inherit=True), mod.__dict__)  # noqa: S102
+    except ImportError:
+        ctx.count("optional_package_missing")
+        return
+    for cls in (mod.PM, mod.DM, mod.AM):
+        for dt in DebugTrail:
+            r = Retort(debug_trail=dt)
+            own = cls(a=0)
+            own_before = freeze({k: getattr(own, k) for k in "xzy"})
+            m1, m2 = r.load({"a": 1}, cls), r.load({"a": 2}, cls)
+            ctx.evaluated(("directed-mutable-defaults", cls.__name__, dt.name), nontrivial=True)
+            ctx.count("load_call_pairs")
+            info = {"model": cls.__name__, "mode": dt.name}
+            for name in "xzy":
+                a, b = getattr(m1, name), getattr(m2, name)
+                if a is b or (name == "z" and a["k"] is b["k"]):
+                    ctx.violation(f"results-share-container:load:default:{cls.__name__[:1]}", f"{cls.__name__}.{name}: two loads that leave the field absent hold the same object {a!r}", info)
+            m1.x.append("edited"); m1.z["k"].append("edited"); m1.y.append(9)  # noqa: E702
+            m3, fresh = r.load({"a": 3}, cls), cls(a=0)
+            if freeze({k: getattr(fresh, k) for k in "xzy"}) != own_before:
+                ctx.violation(f"model-default-changed-by-editing-a-result:{cls.__name__[:1]}", f"{cls.__name__}: after editing a loaded object the model itself constructs {fresh!r}", info)
+            if freeze({k: getattr(m3, k) for k in "xzy"}) != own_before:
+                ctx.violation(f"later-result-changed-by-editing-an-earlier-one:{cls.__name__[:1]}", f"{cls.__name__}: after editing a loaded object the next load gives {m3!r}", info)
+
+
+DIRECTED = {"defaultdict-missing-required-key": _witness_defaultdict, "mutable-defaults-of-model-kinds": _mutable_defaults_of_model_kinds}
 from ..suite_leg import make as _suite_leg  # noqa: E402
 
 DIRECTED["suite-under-monitors"] = _suite_leg("C20")
